@@ -52,7 +52,7 @@ def check_differential(run, case, fronts):
     for f in fronts[1:]:
         run.count('pairwise_comparisons')
         a, b = results[ref], results[f]
-        special = (regs_by_front[ref] ^ regs_by_front[f]) & {'twisted-udp-dead', 'sync-udp-broadcast-filtered', 'twisted-listen-only-is-permanent'}
+        special = (regs_by_front[ref] ^ regs_by_front[f]) & {'twisted-udp-dead', 'twisted-listen-only-is-permanent'}
         lossy = (regs_by_front[ref] | regs_by_front[f]) & set(SH.LOSSY)
         if a['out'] != b['out'] or a['dump'] != b['dump']:
             what = 'output' if a['out'] != b['out'] else 'final store'
@@ -98,7 +98,6 @@ def check_differential(run, case, fronts):
                          'foreign-unit-frame-discards-rest-of-read': 'rest of the read discarded',
                          'tls-framer-keyerror-in-multi-unit-mode': 'TLS KeyError',
                          'twisted-udp-dead': 'Twisted UDP protocol never answers',
-                         'sync-udp-broadcast-filtered': 'sync UDP handler filters broadcast frames that the other datagram front-ends execute',
                          'twisted-listen-only-is-permanent': 'only the Twisted front-end honours (and never leaves) listen-only mode'}[slug], case)
     return not kinds
 
